@@ -1,6 +1,8 @@
 """C13 - bitwise operators act on the n_word-bit two's-complement word."""
 from . import ops, fresh
 
+from . import routes, fresh, flags, sizes, conv, dtype, carriers, funcs, ops, strings, pipeline, widths
+
 EXPLANATION = (
     "R1 primitive table: utils.binary_and/or/xor return (x mod 2^n) OP (y mod 2^n) with OP the operator of their name on every path (no early return of an "
     "unreduced operand); binary_invert normalises to 2^n - 1 - x; R2 method siblings __and__/__or__/__xor__/__invert__: on every path with an Fxp operand the "
@@ -18,3 +20,6 @@ def run(ck):
     ops.resign_helper(ck, "C13.R3")
     ops.operator_siblings(ck, "C08.R4", only=())
     fresh.returned_objects_fresh(ck, "C20.R1")
+    conv.order_consistency(ck, "C13.R4")
+    conv.store_map(ck, "C17.R1")                       # patterns are stored raw: raw stores bypass the scale/bias map
+    routes.who_writes_codes(ck, "C02.R1")
